@@ -166,3 +166,7 @@ def check(ctx: Ctx) -> None:
     from ..interp import Interp
     from .c17 import wrapper_table
     wrapper_table(ctx, Interp(ctx.prog), rule="C04.hook", only={"REPR_ONLY", "HTMLSTR"})
+    # HTMLTextDocument.render splices the rendered dependency markup (inline <script>/<style>, HTML() head content) into the text:
+    # by plain str.replace, which inserts it byte for byte (a regex replacement template would interpret its backslashes)
+    from .c13 import text_render
+    text_render(SharedCtx(ctx, lambda r: "C04.textdoc" if r == "C13.replace" else None), Interp(ctx.prog))
